@@ -82,9 +82,12 @@ var roleLetters = []byte{'S', 'W', 'R', 'C'}
 //	Health 'h' recorded healthy and reachable, 'u' recorded unhealthy (reachable), 'f' failed: recorded dead and
 //	       unreachable, 'x' crashed but not yet detected: recorded healthy, unreachable (peers only)
 //	Router false = the node has no cluster router wired into its handlers (receiving node only)
+//	Gone   true = the node runs but is not a member: no other node's registry has an entry for it (peers only;
+//	       used by the request histories, where "peer unregistered" / "peer registered" are transitions)
 type nodeCfg struct {
 	Real, Rec, WS, Health byte
 	Router                bool
+	Gone                  bool
 }
 
 func (n nodeCfg) stale() bool { return n.Rec != n.Real }
@@ -112,6 +115,9 @@ func (n nodeCfg) String() string {
 	if !n.Router {
 		attrs = append(attrs, "no-router")
 	}
+	if n.Gone {
+		attrs = append(attrs, "unregistered")
+	}
 	if len(attrs) > 0 {
 		s += "(" + strings.Join(attrs, ",") + ")"
 	}
@@ -122,6 +128,9 @@ func (n nodeCfg) key() string {
 	r := byte('r')
 	if !n.Router {
 		r = '-'
+	}
+	if n.Gone {
+		return string([]byte{n.Real, n.Rec, n.WS, n.Health, r, 'g'})
 	}
 	return string([]byte{n.Real, n.Rec, n.WS, n.Health, r})
 }
@@ -289,7 +298,11 @@ type chassis struct {
 	tr        *http.Transport
 	client    *http.Client
 	dialFails atomic.Int64
-	seq       int64 // case counter -> unique cid
+	// reachability switch of the histories: a node that is down refuses new connections; open counts the transport's
+	// connections to each node so that none survives the moment the node goes down
+	down [maxNodes]atomic.Bool
+	open [maxNodes]atomic.Int64
+	seq  int64 // case counter -> unique cid
 	// end-to-end reconciliation of the stores
 	expectStore map[string]int // cid -> node index whose WAL saw it
 	sinceFlush  int
@@ -325,7 +338,7 @@ func newChassis(id int, root string) (*chassis, error) {
 	ch := &chassis{id: id, root: root, expectStore: map[string]int{}}
 	ch.cur.Store("")
 	lg := zerolog.Nop()
-	byAddr := map[string]*fasthttputil.InmemoryListener{}
+	byAddr := map[string]int{}
 	for i := 0; i < maxNodes; i++ {
 		n := &node{idx: i, id: nodeID(i), addr: nodeAddr(i), dir: filepath.Join(root, fmt.Sprintf("n%d", i)), wal: &walRec{}}
 		storeDir := filepath.Join(n.dir, "store")
@@ -383,14 +396,25 @@ func newChassis(id int, root string) (*chassis, error) {
 		n.qh.SetQueryRegistry(n.qreg)
 		n.qh.RegisterRoutes(n.app)
 		n.ln = fasthttputil.NewInmemoryListener()
-		byAddr[n.addr] = n.ln
+		byAddr[n.addr] = i
 		go func() { _ = nn.app.Listener(nn.ln) }()
 		ch.nodes[i] = n
 	}
 	ch.tr = &http.Transport{
 		DialContext: func(ctx context.Context, network, addr string) (net.Conn, error) {
-			if ln, ok := byAddr[addr]; ok {
-				return ln.Dial()
+			if i, ok := byAddr[addr]; ok {
+				if !ch.down[i].Load() {
+					conn, err := ch.nodes[i].ln.Dial()
+					if err != nil {
+						return nil, err
+					}
+					ch.open[i].Add(1)
+					tc := &trackedConn{Conn: conn, n: &ch.open[i]}
+					if !ch.down[i].Load() {
+						return tc, nil
+					}
+					tc.Close() // the node went down while this (background) dial was under way
+				}
 			}
 			ch.dialFails.Add(1)
 			return nil, &net.OpError{Op: "dial", Net: network, Err: errors.New("connection refused (node is down)")}
@@ -491,6 +515,39 @@ func parseShow(b []byte) (int, bool) {
 	return who, true
 }
 
+type trackedConn struct {
+	net.Conn
+	n    *atomic.Int64
+	once sync.Once
+}
+
+func (t *trackedConn) Close() error {
+	t.once.Do(func() { t.n.Add(-1) })
+	return t.Conn.Close()
+}
+
+// setDown switches the reachability of node i. Going down also drops every pooled connection to it (called only while
+// no request is in flight, so every connection is idle or the product of a background dial, which re-checks the flag).
+func (ch *chassis) setDown(i int, down bool) {
+	if ch.down[i].Load() == down {
+		return
+	}
+	ch.down[i].Store(down)
+	if !down {
+		return
+	}
+	for t0 := time.Now(); ; {
+		ch.tr.CloseIdleConnections()
+		if ch.open[i].Load() == 0 {
+			return
+		}
+		if time.Since(t0) > 30*time.Second {
+			ev.Unbound(fmt.Sprintf("connections to node %d still open 30s after it was taken down", i))
+		}
+		time.Sleep(50 * time.Microsecond)
+	}
+}
+
 func (ch *chassis) wire(n *node, r *cluster.Router) {
 	n.mp.SetRouter(r)
 	n.lp.SetRouter(r)
@@ -567,59 +624,98 @@ func tleBody(cid string) []byte {
 	return []byte(cid + "\n" + l1 + "\n" + l2 + "\n")
 }
 
-// run executes the case on the chassis and returns what every node did.
+// liveCluster is the wired cluster of one case or of one request history: every node's own LocalNode, Registry and
+// Router. In a history it lives across the requests and is changed between them only through the registry's
+// production mutation API (history.go).
+type liveCluster struct {
+	n       int
+	dynamic bool
+	locals  [maxNodes]*cluster.Node
+	regs    [maxNodes]*cluster.Registry
+	routers [maxNodes]*cluster.Router
+}
+
+// recordedNode builds the entry the other nodes hold for node j. static: an unreachable node is recorded under an
+// address nobody listens on; dynamic (histories): every node keeps its address and reachability is switched in the
+// dialer (chassis.setDown), so that a node can fail and come back between two requests.
+func recordedNode(j int, pc nodeCfg, dynamic bool) *cluster.Node {
+	p := cluster.NewNode(nodeID(j), nodeID(j), roleOf[pc.Rec], "c30")
+	if pc.up() || dynamic {
+		p.SetAddresses("", nodeAddr(j))
+	} else {
+		p.SetAddresses("", downAddr(j))
+	}
+	switch pc.Health {
+	case 'h', 'x':
+		p.UpdateState(cluster.StateHealthy)
+	case 'u':
+		p.UpdateState(cluster.StateUnhealthy)
+	case 'f':
+		p.UpdateState(cluster.StateDead)
+	}
+	if pc.Rec == 'W' {
+		p.SetWriterState(wsOf(pc.WS))
+	}
+	return p
+}
+
+// wireNode gives node i a fresh LocalNode, a fresh Registry (own entry = its LocalNode; the others as recorded) and a
+// fresh Router.
+func (ch *chassis) wireNode(lc *liveCluster, nodes []nodeCfg, i int) {
+	nc := nodes[i]
+	if !nc.Router {
+		lc.locals[i], lc.regs[i], lc.routers[i] = nil, nil, nil
+		ch.wire(ch.nodes[i], nil)
+		return
+	}
+	local := cluster.NewNode(nodeID(i), nodeID(i), roleOf[nc.Real], "c30")
+	local.SetAddresses("", nodeAddr(i))
+	local.UpdateState(cluster.StateHealthy)
+	if nc.Real == 'W' && nc.Rec == 'W' {
+		local.SetWriterState(wsOf(nc.WS))
+	}
+	reg := cluster.NewRegistry(&cluster.RegistryConfig{LocalNode: local, Logger: zerolog.Nop()})
+	for j := 0; j < len(nodes); j++ {
+		if j == i || nodes[j].Gone {
+			continue
+		}
+		if err := reg.Register(recordedNode(j, nodes[j], lc.dynamic)); err != nil {
+			ev.Unbound("registry.Register: " + err.Error())
+		}
+	}
+	r := cluster.NewRouter(&cluster.RouterConfig{Registry: reg, LocalNode: local, Logger: zerolog.Nop(), Transport: ch.tr})
+	lc.locals[i], lc.regs[i], lc.routers[i] = local, reg, r
+	ch.wire(ch.nodes[i], r)
+}
+
+// wireCluster wires nodes[0..N) as one cluster (fresh registries and routers) and unwires the rest of the chassis.
+func (ch *chassis) wireCluster(nodes []nodeCfg, dynamic bool) *liveCluster {
+	lc := &liveCluster{n: len(nodes), dynamic: dynamic}
+	for i := 0; i < maxNodes; i++ {
+		ch.setDown(i, dynamic && i < len(nodes) && !nodes[i].up())
+	}
+	for i := range nodes {
+		ch.wireNode(lc, nodes, i)
+	}
+	for i := len(nodes); i < maxNodes; i++ {
+		ch.wire(ch.nodes[i], nil)
+	}
+	return lc
+}
+
+// run executes the case on a freshly wired cluster and returns what every node did.
 func (ch *chassis) run(c caseCfg) obs {
+	ch.wireCluster(c.Nodes, false)
+	return ch.request(c)
+}
+
+// request sends the case's request to node 0 of the cluster wired at present (c.Nodes = its current state) and returns
+// what every node did.
+func (ch *chassis) request(c caseCfg) obs {
 	N := len(c.Nodes)
 	ch.seq++
 	cidNum := int64(ch.id)*1_000_000_000 + ch.seq
 	cid := fmt.Sprintf("CID%dX", cidNum)
-
-	// cluster wiring: every node has its own registry (own entry = its LocalNode; the others as recorded)
-	for i := 0; i < N; i++ {
-		nc := c.Nodes[i]
-		if !nc.Router {
-			ch.wire(ch.nodes[i], nil)
-			continue
-		}
-		local := cluster.NewNode(nodeID(i), nodeID(i), roleOf[nc.Real], "c30")
-		local.SetAddresses("", nodeAddr(i))
-		local.UpdateState(cluster.StateHealthy)
-		if nc.Real == 'W' && nc.Rec == 'W' {
-			local.SetWriterState(wsOf(nc.WS))
-		}
-		reg := cluster.NewRegistry(&cluster.RegistryConfig{LocalNode: local, Logger: zerolog.Nop()})
-		for j := 0; j < N; j++ {
-			if j == i {
-				continue
-			}
-			pc := c.Nodes[j]
-			p := cluster.NewNode(nodeID(j), nodeID(j), roleOf[pc.Rec], "c30")
-			if pc.up() {
-				p.SetAddresses("", nodeAddr(j))
-			} else {
-				p.SetAddresses("", downAddr(j))
-			}
-			switch pc.Health {
-			case 'h', 'x':
-				p.UpdateState(cluster.StateHealthy)
-			case 'u':
-				p.UpdateState(cluster.StateUnhealthy)
-			case 'f':
-				p.UpdateState(cluster.StateDead)
-			}
-			if pc.Rec == 'W' {
-				p.SetWriterState(wsOf(pc.WS))
-			}
-			if err := reg.Register(p); err != nil {
-				ev.Unbound("registry.Register: " + err.Error())
-			}
-		}
-		r := cluster.NewRouter(&cluster.RouterConfig{Registry: reg, LocalNode: local, Logger: zerolog.Nop(), Transport: ch.tr})
-		ch.wire(ch.nodes[i], r)
-	}
-	for i := N; i < maxNodes; i++ {
-		ch.wire(ch.nodes[i], nil)
-	}
 
 	before := make([]int64, maxNodes)
 	for i, n := range ch.nodes {
